@@ -525,8 +525,7 @@ func execWQCase(x *execCtx) {
 			s := atoi(f["sub"])
 			got := "none"
 			if s < len(r.subs) {
-				select {
-				case e := <-r.subs[s]:
+				take := func(e error) {
 					ord := 999
 					r.mu.Lock()
 					for _, it := range r.items {
@@ -537,8 +536,24 @@ func execWQCase(x *execCtx) {
 					r.errs[s] = append(r.errs[s], ord)
 					r.mu.Unlock()
 					got = strconv.Itoa(ord)
-				case <-time.After(recvWait(r.lastMon)):
-					// at a quiescent point a pending delivery completes at once; nothing pending = nothing to wait for
+				}
+				// at a quiescent point a pending delivery completes at once; nothing pending = nothing to wait for.  The
+				// channel is polled before and after the guard timer: on a loaded machine the timer may already have fired
+				// when the select looks, and the choice between two ready cases is random.
+				select {
+				case e := <-r.subs[s]:
+					take(e)
+				default:
+					select {
+					case e := <-r.subs[s]:
+						take(e)
+					case <-time.After(recvWait(r.lastMon)):
+						select {
+						case e := <-r.subs[s]:
+							take(e)
+						default:
+						}
+					}
 				}
 			}
 			out(line, r.observe("got="+got+" "))
